@@ -596,8 +596,9 @@ UNARY = {
     "astype": lambda x, t: x.astype({"a": "float64"}),
     "sort_u": lambda x, t: x.sort_values("u", ascending=False),
     "sort_na_first": lambda x, t: x.sort_values(["b", "u"], na_position="first"),
-    "set_index_u": lambda x, t: x.set_index("u"),
-    "set_index_keep": lambda x, t: x.set_index("u", drop=False),
+    # dask's set_index sorts by the new index; pandas keeps the row order: the oracle sorts (stable)
+    "set_index_u": lambda x, t: x.set_index("u") if t.lazy else x.set_index("u").sort_index(kind="stable"),
+    "set_index_keep": lambda x, t: x.set_index("u", drop=False) if t.lazy else x.set_index("u", drop=False).sort_index(kind="stable"),
     "reset_index": lambda x, t: x.reset_index(drop=True),
     "repart2": lambda x, t: x.repartition(npartitions=2) if t.lazy else x,
     "repart5": lambda x, t: x.repartition(npartitions=5) if t.lazy else x,
